@@ -66,7 +66,8 @@ struct SPxException
 };
 #define throw (void)
 
-/* ghost alias pointers for loop invariants (C globals, assigned by the wrappers) */
+/* ghost alias pointers for loop invariants (C globals; assigned by the HARNESS before the call, so that they
+ * need not appear in any assigns clause: every assigns target costs one comparison per checked write) */
 extern "C" { extern double* gp_x; extern double* gp_y; extern double* gp_s; extern double* gp_r;
              extern int* gp_cst; extern int* gp_rst; }
 
@@ -95,7 +96,6 @@ struct PostStepHost
    VectorBase<R> vs; vs.val = s; vs.dimen = nR; VectorBase<R> vr; vr.val = r; vr.dimen = nC; \
    DataArray<VarStatus> dc; dc.data = (VarStatus*)cst; dc.thesize = nC; \
    DataArray<VarStatus> dr; dr.data = (VarStatus*)rst; dr.thesize = nR; \
-   gp_x = x; gp_y = y; gp_s = s; gp_r = r; gp_cst = cst; gp_rst = rst; \
    h.x_ = &vx; h.y_ = &vy; h.s_ = &vs; h.r_ = &vr; h.cStatus_ = &dc; h.rStatus_ = &dr; \
    h.tol_feas = feastol; h.tol_eps = eps; h.isOptimal = (isOptimal != 0);
 /* sparse vector member from raw arrays; `bnd` = dimension its indices live in */
